@@ -191,6 +191,10 @@ class Impl:
         for name, d in case.get("sysfix", {}).items():
             if name in self.node.software_manager.software:
                 self.node.software_manager.software[name].config.fixing_duration = d
+        svc = self.node.software_manager.software.get("database-service")
+        if svc is not None:
+            # a scenario's database server has a real backup server: a completing fix restores the backup inside the timestep
+            self._watch_restore(svc)
         self._index()
 
     # -- canonical state
